@@ -24,7 +24,7 @@ V_TIME = ['2022-03-04 00:00:00.250000', '2022-03-04T00:00:00.5', '2022-03-04 00:
           '1 day, 0:00:10', '2022-03-04 10:11:12 -0800', '2022-03-04T10:11:12+08:00', 'Fri, 04 Mar 2022 10:11:12 GMT', 'P',
           '99999999999999999999', '-1e20']
 INTS = [0, 1, -1, 7, -3, 10, 255, 2 ** 31, 10 ** 20, -10 ** 20, 2 * 10 ** 10, 253402300800]
-FLOATS = [86400.25, 1646352000.5, 86400.0, 0.0, 1.5, -2.5, float('inf'), float('-inf'), float('nan'), 1e30, -1e30, 2e10, 1e308, 5e-324]
+FLOATS = [1234.5, 99.99, 86400.25, 1646352000.5, 86400.0, 0.0, 1.5, -2.5, float('inf'), float('-inf'), float('nan'), 1e30, -1e30, 2e10, 1e308, 5e-324]
 BYTES = [b'', b'7', b'\xff', b'[1]', bytearray(b'5'), memoryview(b'3')]
 
 
